@@ -348,6 +348,11 @@ func findInlineCands(p *Prog, res *canonResult) []*inlineCand {
 			// only report helpers that look like extraction targets (called, never referenced as a value)
 			res.Skipped = append(res.Skipped, f.Name+": "+why)
 		}
+		// a content predicate over an RPC (a bool function reading the messages, the subscriptions and the control
+		// lists) is a construct rules look for by its shape (R11.6): it stays a function in the canonical view
+		if isRPCContentPredicate(f) {
+			continue
+		}
 		refs := p.Refs(f.Name)
 		limit := maxInlineSites
 		if f.Body != nil && len(f.Body.List) == 1 {
@@ -1319,4 +1324,27 @@ func exprHoistStmt(p *Prog, fn *Func, call *ast.CallExpr) (ast.Stmt, string) {
 		return why == ""
 	})
 	return stmt, why
+}
+
+
+// isRPCContentPredicate: a function with a single bool result whose body reads at least five of the seven content
+// fields of an RPC (Publish, Subscriptions and the five control lists).
+func isRPCContentPredicate(f *Func) bool {
+	if f.Body == nil || f.Type.Results == nil || len(f.Type.Results.List) != 1 {
+		return false
+	}
+	if t := f.Info().TypeOf(f.Type.Results.List[0].Type); t == nil || t.String() != "bool" {
+		return false
+	}
+	want := map[string]bool{"Publish": true, "Subscriptions": true, "Ihave": true, "Iwant": true, "Graft": true, "Prune": true, "Idontwant": true}
+	seen := map[string]bool{}
+	ast.Inspect(f.Body, func(x ast.Node) bool {
+		if se, ok := x.(*ast.SelectorExpr); ok && want[se.Sel.Name] {
+			if sel := f.Info().Selections[se]; sel != nil && sel.Kind() == types.FieldVal {
+				seen[se.Sel.Name] = true
+			}
+		}
+		return true
+	})
+	return len(seen) >= 5
 }
